@@ -82,13 +82,13 @@ CHECKS = {
   design="6 C10"),
  "C09": dict(
   technique="runtime differential + history monitor: deliveries of one connection under varied partition / ISN / arrival order vs the in-order baseline, with a coverage invariant evaluated at every report",
-  text="Exploration: 3.2k (quick) / 100k (thorough) seeded HTTP/1.x and HTTP/2 exchanges, (CRLF and bare-LF heads, bodies containing blank lines) each delivered under every (strided in quick) 2-cut, every initial sequence number within one stream length of 2^32, all permutations of up to 5 client segments and random two-direction partitions/orders (~7.7e5 deliveries quick). Each delivery must report exactly the baseline request and response, once, in the right direction, and never before the delivered segments cover the head contiguously. Held = no delivery differed.",
-  note="Needs hooks H1/H3. No retransmissions/overlaps/FIN/RST; SYN and SYN+ACK first as the property presupposes.",
+  text="Exploration: 3.2k (quick) / 100k (thorough) seeded HTTP/1.x and HTTP/2 exchanges, (CRLF and bare-LF heads, bodies containing blank lines) each delivered under every (strided in quick) 2-cut, every initial sequence number within one stream length of 2^32, all permutations of up to 5 client segments and random two-direction partitions/orders (~7.7e5 deliveries quick). Each delivery must report exactly the baseline request and response, once, in the right direction, and never before the delivered segments cover the head contiguously; 3 (quick) / 6 (thorough) deliveries per exchange also go frame by frame through the HTTP worker pool (2..8 workers, built directly or by with_config + init_pool, connections between two hosts and on one host) and must give the same request and response. Held = no delivery differed.",
+  note="Needs hooks H1/H2/H3. No retransmissions/overlaps/FIN/RST; SYN and SYN+ACK first as the property presupposes.",
   design="6 C09"),
  "C07": dict(
-  technique="runtime differential monitor: isolated vs interleaved analysis of scripted connections on the real analyzers, virtual clock, canonical per-frame result comparison",
-  text="Exploration: 24k (quick) / 800k (thorough) seeded scenarios of 2..8 connections (TCP handshakes with timestamps, multi-segment ClientHellos, HTTP/1.x, HTTP/2 incl. hostile HPACK blocks, garbage, truncated) are each analysed alone and under 3..5 order-preserving interleavings on the TCP, HTTP, TLS and unified analyzers; the per-frame canonical results of every connection must be identical in both runs. Held = no connection's result sequence changed in any explored interleaving.",
-  note="Needs hooks H1 (clock) and H3 (per-packet entry). Reach is the sampled interleavings of the generated connection kinds; the configured capacity is 64 or (half of the scenarios) exactly the number of connections.",
+  technique="runtime differential monitor: isolated vs interleaved analysis of scripted connections on the real analyzers (sequential, and free-running through the worker pools with hook-based drain detection), virtual clock, canonical per-frame / per-connection result comparison; Miri stage in the thorough tier",
+  text="Exploration: 24k (quick) / 800k (thorough) seeded scenarios of 2..8 connections (TCP handshakes with timestamps, multi-segment ClientHellos, HTTP/1.x, HTTP/2 incl. hostile HPACK blocks, garbage, truncated) are each analysed alone and under 3..5 order-preserving interleavings on the TCP, HTTP, TLS and unified analyzers; the per-frame canonical results of every connection must be identical in both runs. A quarter (quick) / half (thorough) of the scenarios are also dispatched free-running to the TCP, HTTP and TLS worker pools (1..3 workers, batch 1/2/4, built directly and by with_config + init_pool, seeded perturbation at the hook points) and each connection's results after logical drain must equal those of the connection alone; a reuse stage opens a second connection on the address/port pair of a completed one (HTTP, TLS) and demands the second connection's own results. Held = no connection's result sequence changed in any explored interleaving.",
+  note="Needs hooks H1 (clock), H2 (pool drain) and H3 (per-packet entry). Reach is the sampled interleavings of the generated connection kinds; the configured capacity is 64 or (half of the scenarios) exactly the number of connections.",
   design="6 C07"),
  "C19": dict(
   technique="runtime oracle: online reference state machine (exact rational arithmetic) over episodes driven with a virtual clock hook",
